@@ -13,7 +13,7 @@
 EXTENDS Integers, Sequences, FiniteSets, TLC, Json
 Families == {"sm2", "rsa", "ecdsa256", "ecdsa384"}
 Algs(f) == CASE f = "sm2" -> {"SM2WithSM3", "SM2WithSHA1", "SM2WithSHA256"}
-             [] f = "rsa" -> {"SHA256WithRSA", "SHA1WithRSA", "SHA384WithRSA", "SHA512WithRSA"}
+             [] f = "rsa" -> {"SHA256WithRSA", "SHA1WithRSA", "SHA384WithRSA", "SHA512WithRSA", "SHA256WithRSAPSS", "SHA384WithRSAPSS", "SHA512WithRSAPSS"}
              [] f = "ecdsa256" -> {"ECDSAWithSHA256", "ECDSAWithSHA1", "ECDSAWithSHA384"}
              [] f = "ecdsa384" -> {"ECDSAWithSHA384", "ECDSAWithSHA256", "ECDSAWithSHA512"}
 Default(f) == CASE f = "sm2" -> "SM2WithSM3" [] f = "rsa" -> "SHA256WithRSA" [] f = "ecdsa256" -> "ECDSAWithSHA256" [] f = "ecdsa384" -> "ECDSAWithSHA384"
